@@ -267,7 +267,8 @@ def main(argv):
     t0 = time.time()
     meta = load_meta(pid)
     known = load_known(pid)
-    workdir = os.path.join(WORK, pid)
+    # one work directory per run, so that two runs of the same check cannot disturb each other
+    workdir = os.path.join(WORK, "%s.%d" % (pid, os.getpid())) if not a.keep else os.path.join(WORK, pid)
     shutil.rmtree(workdir, ignore_errors=True)
     os.makedirs(workdir, exist_ok=True)
 
@@ -432,6 +433,6 @@ def main(argv):
     print("%s: tier=%s seed=%d obligations=%d/%d evaluations=%d coq_cases=%d mismatches=%d oracle_failures=%s wall=%.1fs -> %s" % (
         pid, a.tier, a.seed, cov["discharged"], cov["obligations"], cov["evaluations"], cov["traces_validated_against_impl"],
         len(mism), dict(fail_counts), wall, "VIOLATION" if violations else "ok"))
-    if not a.keep and not violations:
+    if not a.keep:
         shutil.rmtree(workdir, ignore_errors=True)
     return 1 if violations else 0
